@@ -227,7 +227,8 @@ func recvName(fd *ast.FuncDecl) string {
 
 // maskMethodWords extracts, for a Mask method, the per-word expressions (value methods) or predicates (bool methods).
 type maskMethod struct {
-	kind   string // "value" | "pred" | "reset" | "sum"
+	writes []string // parameters ("b" receiver, "o" other) whose words the method stores to
+	kind   string   // "value" | "pred" | "reset" | "sum"
 	words  []*wexpr
 	preds  []*wpred
 	conn   token.Token
@@ -503,6 +504,11 @@ func c04r2(p *Prog, r *Reporter) {
 			r.Bad(name, "set semantics", p.Pos(fd.Pos()), "the method has the form "+mm.kind+", the specification needs "+spec.kind)
 			continue
 		}
+		if spec.kind != "reset" && len(mm.writes) > 0 {
+			who := map[string]string{"b": "its receiver", "o": "its argument"}[mm.writes[0]]
+			r.Bad(name, "set semantics", p.Pos(fd.Pos()), "the operation is specified as pure (it returns its result) but stores into "+who+": the operand is changed behind the caller's back")
+			continue
+		}
 		bad := ""
 		switch mm.kind {
 		case "value", "reset", "sum":
@@ -583,8 +589,8 @@ func c04r3(p *Prog, r *Reporter) {
 		norm := func(e ast.Expr) string { return strings.ReplaceAll(p.subst(e, defs, 0), " ", "") }
 		wordForms := map[string]bool{"(" + id + "/" + W + ")": true, "(" + id + ">>" + strconv.Itoa(log2(c.width)) + ")": true}
 		bitForms := map[string]bool{
-			"(" + id + "%" + W + ")": true,
-			"(" + id + "&" + strconv.Itoa(c.width-1) + ")": true,
+			"(" + id + "%" + W + ")":                            true,
+			"(" + id + "&" + strconv.Itoa(c.width-1) + ")":      true,
 			"(" + id + "-(" + W + "*((" + id + "/" + W + "))))": true,
 			"(" + id + "-(" + W + "*(" + id + "/" + W + ")))":   true,
 		}
